@@ -97,9 +97,9 @@ set_option maxRecDepth 4096 in
 theorem dryWiring_guards_ok :
     DryWiring.guards.filter (fun g => fingerGuardKeys.contains g.1) =
       [("Executor.RunTask:e.areTaskPreconditionsMet", ""),
-       ("Executor.RunTask:fingerprint.IsTaskUpToDate", "!(e.ForceAll || (!call.Indirect && e.Force))"),
-       ("Executor.RunTask:e.Logger.Prompt", "range ‹0›.Prompt && ‹1› != \"\" && !e.Dry"),
-       ("Executor.RunTask:e.statusOnError", "range ‹0›.Prompt && ‹1› != \"\" && !e.Dry"),
+       ("Executor.RunTask:fingerprint.IsTaskUpToDate", "!((!call.Indirect && e.Force) || e.ForceAll)"),
+       ("Executor.RunTask:e.Logger.Prompt", "range ‹0›.Prompt && !e.Dry && ‹1› != \"\""),
+       ("Executor.RunTask:e.statusOnError", "range ‹0›.Prompt && !e.Dry && ‹1› != \"\""),
        ("Executor.RunTask:e.mkdir", "!e.Dry"),
        ("Executor.RunTask:e.runCommand", "range ‹0›.Cmds && !(‹0›.Cmds[‹2›].Defer)"),
        ("Executor.RunTask:e.statusOnError", "range ‹0›.Cmds && !(‹0›.Cmds[‹2›].Defer)"),
@@ -166,7 +166,7 @@ theorem fingerOrder_timestampIsUpToDate_ok : FingerOrder.timestampIsUpToDate = [
   ("Globs", "!(len(t.Sources) == 0)"),
   ("def ‹0› := true", "!(len(t.Sources) == 0) && !(‹1› != nil) && !(‹1› != nil)"),
   ("glob", "!(len(t.Sources) == 0) && range t.Generates && !(‹2›.Negate)"),
-  ("def ‹0› = false", "!(len(t.Sources) == 0) && !(‹1› != nil) && !(‹1› != nil) && range t.Generates && !(‹2›.Negate) && ‹3› != nil || len(‹4›) == 0"),
+  ("def ‹0› = false", "!(len(t.Sources) == 0) && !(‹1› != nil) && !(‹1› != nil) && range t.Generates && !(‹2›.Negate) && len(‹3›) == 0 || ‹4› != nil"),
   ("checker.timestampFilePath", "!(len(t.Sources) == 0)"),
   ("def ‹5› := checker.timestampFilePath(t)", "!(len(t.Sources) == 0) && !(‹1› != nil) && !(‹1› != nil)"),
   ("os.Stat", "!(len(t.Sources) == 0)"),
@@ -184,9 +184,9 @@ theorem fingerOrder_timestampIsUpToDate_ok : FingerOrder.timestampIsUpToDate = [
   ("getMaxTime", "!(len(t.Sources) == 0)"),
   ("(func·0)", "!(len(t.Sources) == 0)"),
   ("anyFileNewerThan", "!(len(t.Sources) == 0)"),
-  ("def ‹9›, ‹1› := anyFileNewerThan(‹10›, ‹11›)", "!(len(t.Sources) == 0) && !(‹1› != nil) && !(‹1› != nil) && !(‹1› != nil || (getMaxTime).IsZero())"),
+  ("def ‹9›, ‹1› := anyFileNewerThan(‹10›, ‹11›)", "!(len(t.Sources) == 0) && !(‹1› != nil) && !(‹1› != nil) && !((getMaxTime).IsZero() || ‹1› != nil)"),
   ("(func·0)", "!(len(t.Sources) == 0)"),
-  ("def ‹12› := !‹9› && ‹0›", "!(len(t.Sources) == 0) && !(‹1› != nil) && !(‹1› != nil) && !(‹1› != nil || (getMaxTime).IsZero()) && !(‹1› != nil)"),
+  ("def ‹12› := !‹9› && ‹0›", "!(len(t.Sources) == 0) && !(‹1› != nil) && !(‹1› != nil) && !((getMaxTime).IsZero() || ‹1› != nil) && !(‹1› != nil)"),
   ("(func·0)", "!(len(t.Sources) == 0) && !‹12›"),
   ("return ‹12›, nil", "!(len(t.Sources) == 0)")] := by rfl
 
